@@ -599,21 +599,29 @@ __strfdtdur(
 			break;
 
 			/* time specs */
-		case DT_SPFL_N_TSTD:
+		case DT_SPFL_N_TSTD: {
+			long int S = pre.S;
+
 			if (UNLIKELY(spec.tai)) {
-				pre.S += __strf_tot_corr(dur);
+				/* for this spec only, it may come again */
+				S += __strf_tot_corr(dur);
 			}
-			bp += ltostr(bp, eo - bp, pre.S, -1, DT_SPPAD_NONE);
+			bp += ltostr(bp, eo - bp, S, -1, DT_SPPAD_NONE);
 			*bp++ = 's';
 			break;
+		}
 
-		case DT_SPFL_N_SEC:
+		case DT_SPFL_N_SEC: {
+			long int S = pre.S;
+
 			if (UNLIKELY(spec.tai)) {
-				pre.S += __strf_tot_corr(dur);
+				/* for this spec only, it may come again */
+				S += __strf_tot_corr(dur);
 			}
 
-			bp += ltostr(bp, eo - bp, pre.S, 2, spec.pad);
+			bp += ltostr(bp, eo - bp, S, 2, spec.pad);
 			break;
+		}
 
 		case DT_SPFL_N_MIN:
 			bp += ltostr(bp, eo - bp, pre.M, 2, spec.pad);
